@@ -69,7 +69,7 @@ Definition session_usable (lines : list string) (evs : list term) : bool :=
 
 Definition spec_session (lines : list string) (o : term) : bool :=
   match o with
-  | TL [out; TL evs; _; TL results] =>
+  | TL (out :: TL evs :: _ :: TL results :: _) =>     (* a 5th element: legends parsed back from captured outputs *)
       ok_or_error out && forallb ok_or_error results && session_usable lines evs
   | _ => false
   end.
@@ -97,7 +97,7 @@ Definition spec_web (nreq : nat) (o : term) : bool :=
 
 (* ---- command line ---- *)
 Definition spec_cli (o : term) : bool :=
-  match o with TL [out] => ok_or_error out | _ => false end.
+  match o with TL (out :: _) => ok_or_error out | _ => false end.   (* 2nd element: legend parsed back *)
 
 (* ---- symbolization mode ----
    observable: TL [outcome; number of "unrecognized option" messages; demangler mode seen in the names] *)
